@@ -1,5 +1,6 @@
 import Soa.Lemmas.SkelRead.C01
 import Soa.Lemmas.SkelRead.C05
+import Soa.Lemmas.SkelRead.C06
 import Soa.Lemmas.SkelRead.C07
 import Soa.Lemmas.SkelRead.C10
 import Soa.Lemmas.SkelRead.C12
@@ -7,6 +8,6 @@ import Soa.Lemmas.SkelRead.C15
 /-! all skeleton readings (one module per property scope, so that a change of one generated function breaks the
     obligations of the properties whose model covers it and no others) -/
 namespace Soa.Sk
-/-- every generated function outside the iterator zip chains has a validated shape-generic template -/
-theorem opaque_count : Soa.Extracted.skOpaqueCount = 11 := by decide
+/-- every generated function has a validated shape-generic template -/
+theorem opaque_count : Soa.Extracted.skOpaqueCount = 0 := by decide
 end Soa.Sk
